@@ -71,10 +71,16 @@ func (e *eng) set(s int) *statedb.WatchSet {
 	}
 	return ws
 }
+// nilID names the nil channel: a member like any other that is never closed (the generator never closes it)
+const nilID = 999
+
 func (e *eng) ch(id int) chan struct{} {
 	c, ok := e.chans[id]
 	if !ok {
 		c = make(chan struct{})
+		if id == nilID {
+			c = nil
+		}
 		e.chans[id] = c
 		e.ids[c] = id
 	}
@@ -693,6 +699,9 @@ func (*eng) Gen(r *hx.Rand, n int, tier string, prop string, out *hx.Out) {
 				k = nids/2 + r.Intn(nids)
 			}
 			ids := someIDs(k) // duplicates on purpose
+			if r.Chance(12) {
+				ids = append(ids, nilID) // a nil channel is a member that never closes (S4-C20-3)
+			}
 			g.add(s, ids)
 			out.P("add %d %s", s, strings.ReplaceAll(csv(ids), ",", " "))
 		}
@@ -762,6 +771,9 @@ func genWait(r *hx.Rand, g *gstate, nsets, nids int, big bool, out *hx.Out) {
 		id := r.Intn(nids)
 		if len(members) > 0 && r.Chance(80) {
 			id = hx.Pick(r, members)
+			if id == nilID {
+				id = r.Intn(nids)
+			}
 		}
 		evs = append(evs, ev{id, pickT()})
 	}
